@@ -193,8 +193,18 @@ class Task(object):
         return self.ret
 
 
+class _FalsyTaskError(Exception):
+    def __bool__(self):
+        return False
+
+
+class _EmptyTaskError(Exception):
+    def __len__(self):
+        return 0
+
+
 _EXC = [ValueError, KeyError, OSError, RuntimeError, ZeroDivisionError, TimeoutError, IOError, TypeError,
-        AttributeError, StopIteration, LookupError, AssertionError, Exception]
+        AttributeError, StopIteration, LookupError, AssertionError, Exception, _FalsyTaskError, _EmptyTaskError]
 
 
 def _make_exc(token):
